@@ -90,6 +90,9 @@ def obligations(tier):
     from props import C15
     # timestamp values: what a timestamp slot emits has exactly / at least the digits its precision demands, whatever kind of value came in
     obls += [o for o in C15.obligations(tier) if o.name in ("timestamp_property_clean", "format_is_canonical_truncated")]
+    from props import C19
+    # the definition_type / definition co-constraint of marking definitions, for every form the definition can be handed over in
+    obls += [o for o in C19.obligations(tier) if o.name == "marking_definition_uses_registered_class"]
     H4 = "props.h_C04"
     F4 = ["stix2.properties." + n + ".clean" for n in ("ListProperty", "EmbeddedObjectProperty", "ExtensionsProperty", "HashesProperty")]
     obls += [     # nested custom content is refused in strict mode (harnesses shared with C04; they also assert the flag)
